@@ -63,6 +63,61 @@ def check_case(ctx, tl, finals, tag, model=None):
                   inp=small, suite="corr.rdfs")
 
 
+def sequences(ctx, rng):
+    """call sequences: (a) a call that fails (unknown final state) must not affect later calls;
+    (b) the same list object searched again after an in-place edit that keeps all counts"""
+    m = __import__("crlib").repo("reverse_dfs")
+    from crlib import quiet
+    for k in range(20 if ctx.quick() else 400):
+        tl, f = gen.random_digraph(rng, n=rng.randint(3, 9))
+        n = len(tl)
+        # (a) error path in between
+        try:
+            with quiet():
+                m.reverse_dfs([list(r) for r in tl], [f[0], n + 5])
+        except Exception:  # noqa
+            pass
+        tl2, f2 = gen.random_digraph(rng, n=rng.randint(2, 9))
+        with quiet():
+            try:
+                got = m.reverse_dfs([list(r) for r in tl2], list(f2))
+            except Exception as e:  # noqa
+                got = type(e).__name__
+        exp = oracle_list(tl2, f2)
+        ctx.case({"sequence": "after-failed-call", "tl": tl2, "finals": f2}, True)
+        if got != exp:
+            ctx.violation("independent-of-earlier-failed-call", {"first_call": {"tl": tl, "finals": [f[0], n + 5]}, "tl": tl2, "finals": f2},
+                          {"got": got, "expected": exp})
+            return
+        # (b) same object, edited in place (same number of states and transitions)
+        obj = [list(r) for r in tl]
+        with quiet():
+            try:
+                m.reverse_dfs(obj, list(f))
+                m.reverse_transition_list(obj)
+            except Exception:  # noqa
+                continue
+        rows = [i for i, r in enumerate(obj) if r]
+        if not rows:
+            continue
+        i = rng.choice(rows)
+        j = rng.randrange(len(obj[i]))
+        lab, old_t = obj[i][j]
+        obj[i][j] = (lab, (old_t + 1 + rng.randrange(n - 1)) % n if n > 1 else old_t)
+        with quiet():
+            try:
+                got = m.reverse_dfs(obj, list(f))
+                tab = m.reverse_transition_list(obj)
+            except Exception as e:  # noqa
+                got, tab = type(e).__name__, None
+        exp = oracle_list(obj, f)
+        ctx.case({"sequence": "same-object-edited", "tl": obj, "finals": f}, True)
+        et = oracle_table(obj)
+        if got != exp or tab is None or any(sorted(tab.get(k2, [])) != sorted(v) for k2, v in et.items()):
+            ctx.violation("same-object-after-in-place-edit", {"original": tl, "tl": obj, "finals": f}, {"got": got, "expected": exp})
+            return
+
+
 def board_graph(rng, L, W):
     rg = __import__("crlib").repo("roberta_generator")
     moves = [[rng.choice([0, 1, 2, 3]) for _ in range(W)] for _ in range(L)]
@@ -107,6 +162,7 @@ def run(ctx, model=None):
     for (W, L) in boards:
         tl, f = board_graph(rng, L, W)
         check_case(ctx, tl, f, f"board:L{L}xW{W}", model)
+    sequences(ctx, rng)
     if not ctx.quick():
         # exhaustive: all graphs on <= 3 states with out-degree <= 2, all single/double finals
         import itertools
